@@ -12,7 +12,7 @@ DRIVER = "shootmodel_det"
 
 MANIFEST = dict(
     text="Lean 4 theorems over a model of the Generate loop with the long-lived generator state made explicit (new, map; enum/rest keep none) and of MergeSources on parsed files: reset (per-type output = fresh-generator output; parameterised by which fields the code carries, partial + witnesses for today's four leaks), combined run = one process per type, permutation, merged file = declarations + own doc comments + first-occurrence imports under the first header; every Generator field of the CURRENT source is classified (regenerated table). Tied to the code by running the rebuilt shoot on generated multi-type packages (new/map/enum/rest) in five invocation styles and comparing the files at AST level.",
-    note="Lean kernel + standard axioms; model tied by the correspondence run (rebuilt shoot, harness/cmd/declcmp) and by Gen/Facts.lean (genStateFields, genStateWrites). go/parser, go/printer, goimports are externals.",
+    note="The theorem C08_proposed_repair_perm is about the PROPOSED repair notes/proposed/deps-first-and-shadow-aio.patch (not applied; codeRepair = noRepair), not about the code at HEAD. Lean kernel + standard axioms; model tied by the correspondence run (rebuilt shoot, harness/cmd/declcmp) and by Gen/Facts.lean (genStateFields, genStateWrites). go/parser, go/printer, goimports are externals.",
     technique="Lean 4 proof (state machine fold, list induction) + differential model/implementation correspondence",
     design="5/C08")
 
@@ -55,6 +55,7 @@ def variants(pk, rng):
     }
     if pk.get("star"):
         v["f"] = [base + ["-type=*"]]                                # all-in-one via the go:generate line (+ Clean)
+    v["g"] = [base + ["-file=" + pk["gofile"], "@DIR@"]]             # all-in-one, run from the PARENT directory with the [dir] argument
     pk["seq"] = seq
     return v, perm
 
@@ -93,8 +94,15 @@ def run_packages(ctx, pks):
         pk["id"] = "p%d" % i
         pk["variants"], pk["perm"] = variants(pk, ctx.rng)
         for v, runs in pk["variants"].items():
+            if v == "g":
+                # goimports resolves names with the help of the files next to the current directory: from the parent the
+                # hand-written file of the package (and its import aliases) is not "next to" the generated source
+                cwd, darg = ("..", "./c_" + pk["id"] + v) if pk["cwd"] == "." else (".", "./" + pk["cwd"])
+                rr = [{"args": [darg if x == "@DIR@" else x for x in a], "cwd": cwd} for a in runs]
+            else:
+                rr = [{"args": a, "cwd": pk["cwd"]} for a in runs]
             b.add({"id": pk["id"] + v, "files": {k: c.replace("@DEST@", "%s/c_%s/dest" % (pkgrun.MOD, pk["id"] + v)) for k, c in pk["files"].items()},
-                   "runs": [dict(r) for r in pk["setup"]] + [{"args": a, "cwd": pk["cwd"]} for a in runs]})
+                   "runs": [dict(r) for r in pk["setup"]] + rr})
     out = b.execute(build=False)
     # describe every generated file of the measured runs
     paths = []
@@ -205,6 +213,9 @@ def build_cases(ctx, pks, res):
             if "f" in rs:
                 st = rs["f"]["desc"].get(detgen.aio_file(pk["gofile"], pk["cmd"]))
                 im["star-eq"] = "true" if rs["f"]["ok"] and detgen.canon(st) == detgen.canon(aio) and len(rs["f"]["desc"]) == 1 else "false"
+            if rs["g"]["ok"]:
+                gd = rs["g"]["desc"].get(detgen.aio_file(pk["gofile"], pk["cmd"]))
+                im["dir-eq"] = "true" if detgen.canon(gd) == detgen.canon(aio) else "false"
             add(pk["id"] + "m", "merge", [detgen.merge_file_sexp(f) for f in files], im, "d", pk["id"] + "m")
         else:
             res.hist("skipped", "all-in-one-run-fails")
@@ -228,6 +239,8 @@ def post_model(cases, impl, model):
             if c["id"].endswith("m"):
                 if "star-eq" in impl[c["id"]]:
                     d["star-eq"] = "true"      # impl-vs-impl leg (`-type=*` against `-file=`): no model, the property says equal
+                if "dir-eq" in impl[c["id"]]:
+                    d["dir-eq"] = "true"       # impl-vs-impl leg (run from the parent directory with [dir])
             else:
                 d["exit"] = "0"
 
